@@ -146,6 +146,12 @@ func (w *World) resolveTarget(to string) (Addr, bool) {
 			return Addr{}, false
 		}
 		return w.M.Contracts[i], true
+	case 'i':
+		i, err := strconv.Atoi(to[1:])
+		if err != nil || i < 0 || i >= len(w.M.InnerList) {
+			return Addr{}, false
+		}
+		return w.M.InnerList[i], true
 	case 'x':
 		i, _ := strconv.Atoi(to[1:])
 		return freshAddr(w.Tr.Seed, i), true
